@@ -28,7 +28,32 @@ pub enum Via {
     Bytes,
     /// Set at len+3 with ones on top, then `>>`-free route: split_off keeps the low part
     SplitLow,
+    // ---- produced by *operations* whose result is the requested value (what the operation leaves beyond `len` or in
+    // spare words comes along): "however it was produced" for the observer properties
+    /// y * 3 with the multiplier held by a long heap `Bvd`, y = bits * 3^-1 mod 2^n (the product wraps)
+    MulHeap,
+    /// (x + r) - r with r an all-ones `Bvd` 70 bits longer
+    AddSub,
+    /// (x ^ r) ^ r with r an all-ones `Bv` 130 bits longer
+    XorLong,
+    /// rotl(k) then rotr(k), k = n/3 + 1
+    RotRound,
+    /// shl_in of bit 0 into the vector holding bits 1.. (a one falls off the top)
+    ShlIn,
+    /// copy_range out of the middle of a longer vector with ones on both sides
+    CopyMid,
+    /// read() from bytes whose surplus high bits are set
+    ReadSurplus,
 }
+
+/// The operation-produced paths.
+pub const VIAS_OPS: [Via; 7] = [Via::MulHeap, Via::AddSub, Via::XorLong, Via::RotRound, Via::ShlIn, Via::CopyMid, Via::ReadSurplus];
+
+/// Every production path (used by the checks of the observer properties, whose subject is "any vector, however produced").
+pub const VIAS_ALL: [Via; 16] = [
+    Via::Set, Via::Bin, Via::NotInv, Via::PushPop, Via::Trunc, Via::Spare(64), Via::HeapShort, Via::Bytes, Via::SplitLow,
+    Via::MulHeap, Via::AddSub, Via::XorLong, Via::RotRound, Via::ShlIn, Via::CopyMid, Via::ReadSurplus,
+];
 
 pub const VIAS_BASIC: [Via; 9] = [
     Via::Set,
@@ -54,6 +79,13 @@ impl Via {
             Via::HeapShort => "heapshort".into(),
             Via::Bytes => "bytes".into(),
             Via::SplitLow => "splitlow".into(),
+            Via::MulHeap => "mulheap".into(),
+            Via::AddSub => "addsub".into(),
+            Via::XorLong => "xorlong".into(),
+            Via::RotRound => "rotround".into(),
+            Via::ShlIn => "shlin".into(),
+            Via::CopyMid => "copymid".into(),
+            Via::ReadSurplus => "readsurplus".into(),
         }
     }
     pub fn dec(s: &str) -> Option<Via> {
@@ -66,6 +98,13 @@ impl Via {
             "heapshort" => Via::HeapShort,
             "bytes" => Via::Bytes,
             "splitlow" => Via::SplitLow,
+            "mulheap" => Via::MulHeap,
+            "addsub" => Via::AddSub,
+            "xorlong" => Via::XorLong,
+            "rotround" => Via::RotRound,
+            "shlin" => Via::ShlIn,
+            "copymid" => Via::CopyMid,
+            "readsurplus" => Via::ReadSurplus,
             _ => {
                 let k = s.strip_prefix("spare")?.parse::<usize>().ok()?;
                 Via::Spare(k)
@@ -194,6 +233,73 @@ fn build_via<T: Subject>(bits: &[bool], via: Via) -> T {
             let _high = x.split_off(n);
             x
         }
+        Via::MulHeap => {
+            if n == 0 {
+                return build_set(bits);
+            }
+            // y = bits * 3^-1 (mod 2^n), so that y * 3 wraps around to the requested value
+            let modulus = num_bigint::BigUint::from(1u8) << n;
+            let three = num_bigint::BigUint::from(3u8);
+            let inv = three.modinv(&modulus).expect("HARNESS-ERROR: 3 is odd");
+            let y = (model::val(bits) * inv) % &modulus;
+            let ybits: Bits = (0..n).map(|i| y.bit(i as u64)).collect();
+            let yv: T = build_set(&ybits);
+            let mut m = vec![false; n + 200];
+            m[0] = true;
+            m[1] = true;
+            let mv: Bvd = build_set(&m);
+            T::with_bvd(&yv, model::Op::Mul, Form::RR, &mv)
+        }
+        Via::AddSub => {
+            let r: Bvd = build_set(&vec![true; n + 70]);
+            let x: T = build_set(bits);
+            let x = T::with_bvd(&x, model::Op::Add, Form::AR, &r);
+            T::with_bvd(&x, model::Op::Sub, Form::AR, &r)
+        }
+        Via::XorLong => {
+            let r: Bv = build_set(&vec![true; n + 130]);
+            let x: T = build_set(bits);
+            let x = T::with_bv(&x, model::Op::Xor, Form::AR, &r);
+            T::with_bv(&x, model::Op::Xor, Form::VR, &r)
+        }
+        Via::RotRound => {
+            let mut x: T = build_set(bits);
+            if n > 0 {
+                let k = (n / 3 + 1).min(n);
+                x.rotl(k);
+                x.rotr(k);
+            }
+            x
+        }
+        Via::ShlIn => {
+            if n == 0 {
+                return build_set(bits);
+            }
+            let mut y: Bits = bits[1..].to_vec();
+            y.push(true);
+            let mut x: T = build_set(&y);
+            x.shl_in(bit(bits[0]));
+            x
+        }
+        Via::CopyMid => {
+            let lo = 3usize;
+            let hi = cap.map_or(67, |c| (c - n).saturating_sub(lo).min(67));
+            if cap.map_or(false, |c| n + lo > c) {
+                return build_set(bits);
+            }
+            let mut long = vec![true; lo];
+            long.extend_from_slice(bits);
+            long.resize(lo + n + hi, true);
+            let src: T = build_set(&long);
+            src.copy_range(lo..lo + n)
+        }
+        Via::ReadSurplus => {
+            let nbytes = (n + 7) / 8;
+            let mut long = bits.to_vec();
+            long.resize(nbytes * 8, true);
+            let bytes = model::bytes_le(&long);
+            T::read(&mut &bytes[..], n, Endianness::Little).expect("operand path: read rejected input within capacity")
+        }
     }
 }
 
@@ -214,10 +320,30 @@ pub fn build<T: Subject>(spec: &Spec) -> (T, bool) {
         let ok = x.len() == spec.bits.len() && read_bits(&x) == spec.bits;
         (x, ok)
     });
+    let name = match spec.via {
+        Via::Spare(_) => "spare".to_string(),
+        v => v.enc(),
+    };
     match r {
-        Ok((x, true)) => (x, false),
-        _ => (build_set(&spec.bits), true),
+        Ok((x, true)) => {
+            VIA_COUNTS.with(|c| *c.borrow_mut().entry(format!("operand-path:{}:built", name)).or_insert(0) += 1);
+            (x, false)
+        }
+        _ => {
+            VIA_COUNTS.with(|c| *c.borrow_mut().entry(format!("operand-path:{}:fell-back-to-set", name)).or_insert(0) += 1);
+            (build_set(&spec.bits), true)
+        }
     }
+}
+
+thread_local! {
+    /// per worker: how often each production path produced the operand / had to fall back (flushed into the run's buckets)
+    static VIA_COUNTS: std::cell::RefCell<std::collections::BTreeMap<String, u64>> = const { std::cell::RefCell::new(std::collections::BTreeMap::new()) };
+}
+
+/// Take this thread's production-path counters (name, count).
+pub fn take_via_counts() -> Vec<(String, u64)> {
+    VIA_COUNTS.with(|c| std::mem::take(&mut *c.borrow_mut()).into_iter().collect())
 }
 
 /// Like `build` but without the fallback: used where the production path itself is under test.
